@@ -179,7 +179,9 @@ class RefStore:
         # every edge of the other node becomes incident to the merged node (across graphs)
         for k in [k for k in O["edges"] if nid in k]:
             (w,) = [x for x in k if x != nid] or [nid]
-            self.cross[frozenset(((gid, nid), (other, w)))] = O["edges"].pop(k)
+            # (a neighbour both nodes are linked to: the caller's own link stays - "common relationships are merged")
+            theirs = O["edges"].pop(k)
+            self.cross.setdefault(frozenset(((gid, nid), (other, w))), theirs)
         for k in [k for k in self.cross if (other, nid) in k]:
             (w,) = [x for x in k if x != (other, nid)]
             props = self.cross.pop(k)
@@ -187,7 +189,7 @@ class RefStore:
                 if w[1] != nid:
                     self.g(gid)["edges"].setdefault(ekey(nid, w[1]), props)   # common relationships are merged
             else:
-                self.cross[frozenset(((gid, nid), w))] = props
+                self.cross.setdefault(frozenset(((gid, nid), w)), props)
         del O["nodes"][nid]
         self.g(gid)["nodes"][nid] = new
 
